@@ -218,6 +218,10 @@ impl Report {
         self.notes.push(s.into());
     }
 
+    pub fn has_note_for(&self, prefix: &str) -> bool {
+        self.notes.iter().any(|n| n.starts_with(prefix))
+    }
+
     /// A violation of the property. `key` identifies the failing input/call site (matched against
     /// known_findings.jsonl by the check script); `replay` is what `--replay` needs.
     pub fn violation(&mut self, key: &str, what: &str, replay: Value) {
